@@ -389,6 +389,7 @@ func runClientCache(c *Ctx) error {
 	}
 	cases = append(cases, ccRetryCases(c)...)
 	ccKeylessClient(c)
+	ccSidCollision(c)
 	security.ClearSessionCache()
 	return diffBatch(c, "sc", cases, nil)
 }
